@@ -23,7 +23,7 @@ echo "== build" >> $log
 go build ./sql/... ./memory/... . >> $log 2>&1; echo "build rc=$?" >> $log
 echo "== pinned suite with patch" >> $log
 go test -vet=off -count=1 ./errguard/ ./internal/... ./sql/in_mem_table/ ./sql/sqlredact/ ./sql/planbuilder/dateparse/ ./optgen/cmd/support/ ./enginetest/scriptgen/setup/ 2>&1 | grep -v "no test files" >> $log; echo "suite rc=${PIPESTATUS[0]}" >> $log
-if [ -n "${dpath:-}" ]; then cp $wt/_mutation/$(basename $dpath) $wt/$dpath; fi
+if [ -n "${dpath:-}" ]; then src=$wt/_mutation/$(basename $dpath); [ -f $src ] || src=$(ls $wt/_mutation/*_test.go | head -1); cp $src $wt/$dpath; fi
 echo "== demo with patch (must FAIL)" >> $log
 go test -vet=off -count=1 -run "$run" $pkg > $out/demo_with_patch.log 2>&1; rc1=$?; echo "demo-with-patch rc=$rc1" >> $log
 git apply -R _mutation/patch.diff
